@@ -33,3 +33,4 @@ package db
 //@   opt allocates
 //@   ensures err == nil ==> exists i int witness sepIndex :: 0 <= i < len(word) && p.key == word[:i] && p.value == word[i+1:] && p.value2 == "" &&
 //@             ((word[i] == ':' && p.operator == 0) || (word[i] == '<' && p.operator == 2) || (word[i] == '>' && p.operator == 3))
+//@   ensures exists i int witness sepIndex :: (err != nil <==> (i < 0 || i >= len(word) || (word[i] != ':' && word[i] != '<' && word[i] != '>')))
